@@ -121,8 +121,29 @@ func oracleFor(prop string, ref *progen.RefResult, res *Result) []string {
 	return nil
 }
 
+// sigForCase refines sigFor with what is known about the program.
+func sigForCase(prop string, c DfCase, msg string) string {
+	if c.Kp != nil && literalNullJob(*c.Kp, msg) {
+		return prop + ":nest:literal-null-element-runs-a-job"
+	}
+	return sigFor(prop, msg)
+}
+
+// literalNullJob: a literal null element of an array of collections that an
+// outer call maps over still runs one inner job (with a null argument).
+func literalNullJob(d progen.KeyParams, msg string) bool {
+	return d.Ragged != "" && !d.OuterDyn && progen.RaggedHasNull(d.OuterSel) &&
+		strings.Contains(msg, "job(s) executed, the program denotes")
+}
+
 func sigFor(prop string, msg string) string {
 	// recognisable defect classes first
+	if strings.Contains(msg, "circular fork sources") {
+		return prop + ":nest:split-over-mapped-output:circular-fork-sources"
+	}
+	if strings.Contains(msg, "panic: invalid type for merge") {
+		return prop + ":nest:split-over-mapped-output:panic-invalid-type-for-merge"
+	}
 	if strings.Contains(msg, "cannot be instantiated") && strings.Contains(msg, "unexpected merge expression") {
 		return prop + ":accepted-program-not-instantiable:unexpected-merge-expression"
 	}
@@ -205,7 +226,7 @@ func DataflowCheck(prop string) {
 			fmt.Println(res.PanicStack)
 		}
 		for _, v := range viol {
-			r.Report(ev.Finding{Sig: sigFor(prop, v), What: v, Case: c})
+			r.Report(ev.Finding{Sig: sigForCase(prop, c, v), What: v, Case: c})
 		}
 		r.Finish()
 	}
@@ -273,7 +294,7 @@ func DataflowCheck(prop string) {
 		report := func(c DfCase, viol []string) {
 			c.Program = c.Build().MRO()
 			for _, v := range viol {
-				r.Report(ev.Finding{Sig: sigFor(prop, v), What: d.Name() + " schedule " + c.Schedule.String() + ": " + v, Case: c})
+				r.Report(ev.Finding{Sig: sigForCase(prop, c, v), What: d.Name() + " schedule " + c.Schedule.String() + ": " + v, Case: c})
 			}
 		}
 		if len(viol) > 0 {
